@@ -26,7 +26,7 @@ ASSUMPTIONS = ["generator laziness is not modelled"]
 EXPLANATION = ("Proved (SMT, all inputs): count_steps / count_jumps / count_hands / count_holds / count_rolls / _count_holds_or_rolls pass exactly the "
                "documented options to group_notes (default types = tap, hold head, roll head, lift; JOIN_ALL; minimum 1 / 2 / 3; holds and rolls: "
                "{head, TAIL}, joined, KEEP_SEPARATE, the caller's orphan policies) and return count_grouped_notes of the result; count_grouped_notes "
-               "and count_mines are the stated counts. Bounded (never counted as proved): group_notes against the declarative fate specification "
+               "and count_mines are the stated counts; the three function-valued pieces inside group_notes (type filter, row key, join-by-type selection) read from the real AST. Bounded (never counted as proved): group_notes against the declarative fate specification "
                "taken from the statement, exhaustively over all streams of the grid and all option combinations; the counters on the same grid.")
 Q = "simfile.notes.count."
 
@@ -257,6 +257,104 @@ class CountMines(Unit):
 
 
 UNITS = [CountGrouped(), CountMines()] + [Counter(f_) for f_ in ("count_steps", "count_jumps", "count_hands", "_count_holds_or_rolls", "count_holds", "count_rolls")]
+
+
+class GroupNotesPredicates(Unit):
+    """The three function-valued arguments inside group_notes (real AST, located on every run as a lambda or as a function
+    defined inside group_notes): the filter keeps exactly the notes whose type is in include_note_types (every one of the
+    2^|NoteType| sets of members, every note), rows are grouped by the beat itself, and JOIN_BY_NOTE_TYPE selects the notes
+    of a row whose type equals the type being joined.  group_notes as a whole stays with the bounded stand-in."""
+    name = "group_notes.<filter-and-keys>"
+    functions = ("simfile.notes.group.group_notes",)
+    expected = ["post:filter-keeps-exactly-the-included-types", "post:rows-are-keyed-by-the-beat", "post:join-by-type-selects-the-equal-type"]
+
+    def run(self, ex):
+        import ast, itertools
+        from pyvc.execu import Frame, LambdaVal, Closure
+        n, g, c = G()
+        fi = ex.repo.func("simfile.notes.group.group_notes")
+        nested = [x for x in ast.walk(fi.node) if isinstance(x, ast.FunctionDef) and x is not fi.node]
+        in_nested = {id(y) for f in nested for y in ast.walk(f)}
+
+        def named(cl, nm):
+            return isinstance(cl, ast.Call) and (getattr(cl.func, "id", None) == nm or getattr(cl.func, "attr", None) == nm) \
+                and len(cl.args) == 2 and not cl.keywords
+
+        def fnval(node, fr):
+            if isinstance(node, ast.Lambda):
+                return LambdaVal(node, fr)
+            if isinstance(node, ast.Name):
+                defs = [x for x in nested if x.name == node.id]
+                if len(defs) == 1:
+                    for cand in ex.repo.funcs.values():
+                        if cand.node is defs[0]:
+                            return Closure(cand, fr)
+            raise Unsupported("a predicate / key of group_notes is neither a lambda nor a function defined inside group_notes: the contract does not fit the code")
+
+        calls = list(ast.walk(fi.node))
+        top_filters = [x for x in calls if named(x, "filter") and id(x) not in in_nested]
+        top_groupbys = [x for x in calls if named(x, "groupby") and id(x) not in in_nested]
+        row_filters = [x for x in calls if named(x, "filter") and id(x) in in_nested]
+        row_comps = [x for x in calls if isinstance(x, ast.ListComp) and id(x) in in_nested and len(x.generators) == 1 and len(x.generators[0].ifs) == 1
+                     and isinstance(x.generators[0].target, ast.Name) and isinstance(x.elt, ast.Name) and x.elt.id == x.generators[0].target.id]
+        if len(top_filters) != 1 or len(top_groupbys) != 1 or len(row_filters) + len(row_comps) != 1:
+            raise Unsupported("group_notes no longer has one filter(<pred>, notes), one groupby(<stream>, <key>) and one selection of a row by note type "
+                              "(filter(<pred>, row) or [n for n in row if <cond>]): the contract does not fit the code")
+        params = [a.arg for a in fi.node.args.args + fi.node.args.kwonlyargs]
+        if "include_note_types" not in params:
+            raise Unsupported("group_notes has no include_note_types parameter")
+        NT = TNT(n.Note)
+        TY = TEnum(n.NoteType)
+        note = ex.sym(NT, "note")
+        nty = term(ex.getattr(note, "note_type"))
+        members = list(n.NoteType)
+        # 1. the include filter, for every set of members
+        conj = []
+        for k in range(len(members) + 1):
+            for sub in itertools.combinations(members, k):
+                fr = Frame(fi, {"include_note_types": frozenset(sub)}, None, g)
+                r = ex.call(fnval(top_filters[0].args[0], fr), [note], {})
+                tv = ex.truthy(r)
+                tv = z3.BoolVal(tv) if isinstance(tv, bool) else tv
+                conj.append(tv == z3.Or([nty == TY.lift(m) for m in sub] + [z3.BoolVal(False)]))
+        ex.prove("post:filter-keeps-exactly-the-included-types", z3.And(conj),
+                 f"for each of the {len(conj)} sets of note types: a note passes the filter exactly when its type is in the set")
+        # 2. the row key
+        fr = Frame(fi, {}, None, g)
+        key = ex.call(fnval(top_groupbys[0].args[1], fr), [note], {})
+        ex.prove("post:rows-are-keyed-by-the-beat", term(key) == term(ex.getattr(note, "beat")), "notes are grouped into rows by their exact beat")
+        # 3. JOIN_BY_NOTE_TYPE: filter(<pred>, row) or [n for n in row if <cond>]; the one free variable is the type being joined
+        bi = set(__builtins__) if isinstance(__builtins__, dict) else set(dir(__builtins__))
+
+        def free_of(node, own):
+            return sorted({x.id for x in ast.walk(node) if isinstance(x, ast.Name) and isinstance(x.ctx, ast.Load)} - own - set(vars(g)) - bi)
+
+        joined = ex.sym(TY, "joined_type")
+        if row_filters:
+            pred = row_filters[0].args[0]
+            defs = [x for x in nested if x.name == getattr(pred, "id", None)]
+            body = pred if isinstance(pred, ast.Lambda) else defs[0] if len(defs) == 1 else None
+            if body is None:
+                raise Unsupported("the row filter of group_notes is neither a lambda nor a function defined inside group_notes")
+            free = free_of(body, {a.arg for a in body.args.args})
+            if len(free) != 1:
+                raise Unsupported(f"the row filter of group_notes has free variables {free}: the contract expects exactly the note type being joined")
+            fr = Frame(fi, {free[0]: joined}, None, g)
+            r = ex.call(fnval(pred, fr), [note], {})
+        else:
+            lc = row_comps[0]
+            gen = lc.generators[0]
+            free = free_of(gen.ifs[0], {gen.target.id})
+            if len(free) != 1:
+                raise Unsupported(f"the row selection of group_notes has free variables {free}: the contract expects exactly the note type being joined")
+            fr = Frame(fi, {free[0]: joined, gen.target.id: note}, None, g)
+            r = ex.eval(gen.ifs[0], fr)
+        tv = ex.truthy(r)
+        tv = z3.BoolVal(tv) if isinstance(tv, bool) else tv
+        ex.prove("post:join-by-type-selects-the-equal-type", tv == (nty == joined.t), "a note of the row joins the group exactly when its type is the type being joined")
+
+
+UNITS = list(UNITS) + [GroupNotesPredicates()]
 
 
 # ---------------------------------------------------------------------------
